@@ -331,7 +331,10 @@ def _srcguard(ctx, index):
                     continue
                 modvars = sorted({x.value.id for x in ast.walk(v) if isinstance(x, ast.Attribute) and x.attr == "body" and isinstance(x.value, ast.Name)})
                 # the symbol's name: what emit_file_on_hierarchy hands to _emit_symbol as `name=`
-                namevar = next((norm(k.value) for c in calls for k in c.keywords if k.arg == "name" and isinstance(k.value, ast.Name)), "name")
+                namevar = next(
+                    (norm(a_) for c in calls for p_, a_ in index.bound_args(f.mod, c, f).items() if p_ == "name" and isinstance(a_, ast.Name)),
+                    "name",
+                )
                 r = None
                 for mv in modvars or ["existent_mod"]:
                     r = _exists_node_named(v, namevar, mv)
